@@ -4,7 +4,8 @@ use crate::{
     campaign::{RunReport, Stats, Violation},
     pool::{self, World},
     prng::Rng,
-    world::{exec_variant, map_offset, Enc, Entry, FileSpec, Obs, Outcome, Variant, WorldTrace},
+    seam::{Fault, FsAction},
+    world::{exec_variant, file_bytes, file_text, map_offset, Enc, Entry, Extra, FileSpec, Obs, Outcome, Variant, WorldTrace},
 };
 
 pub const FILE_NAMES: &[&str] = &["a.st", "b.st", "c.st", "main.st", "lib.ST", "z_types.st", "m.iec", "0.st"];
@@ -218,6 +219,674 @@ fn oracle_c06(t: &WorldTrace, obs: &[Obs], stats: &mut Stats) -> Vec<Violation> 
 }
 
 // ---------------------------------------------------------------------------------------------
+// C13: command-line contract
+
+fn static_fault(rng: &mut Rng, v: &mut Variant) -> &'static str {
+    match rng.below(9) {
+        0 => {
+            let pos = rng.below(v.args.len() + 1);
+            v.args.insert(pos, "ws/missing.st".into());
+            "missing_path"
+        }
+        1 => {
+            v.extras.push(Extra::DanglingSymlink("dangling.st".into()));
+            if !v.args.iter().any(|a| a == "ws") {
+                v.args.push("ws/dangling.st".into());
+            }
+            "dangling_symlink"
+        }
+        2 => {
+            v.extras.push(Extra::SymlinkLoop("loop.st".into()));
+            if !v.args.iter().any(|a| a == "ws") {
+                v.args.push("ws/loop.st".into());
+            }
+            "symlink_loop"
+        }
+        3 => {
+            v.extras.push(Extra::EmptyDir("empty".into()));
+            if rng.chance(1, 2) {
+                v.args = vec!["ws/empty".into()];
+            } else {
+                let pos = rng.below(v.args.len() + 1);
+                v.args.insert(pos, "ws/empty".into());
+            }
+            "empty_directory"
+        }
+        4 => {
+            v.extras.push(Extra::SubDirWithFile("sub".into()));
+            v.args = vec!["ws".into()];
+            "sub_directory"
+        }
+        5 => {
+            if let Some(f) = v.files.first() {
+                v.extras.push(Extra::SymlinkToFile("link.st".into(), f.name.clone()));
+            }
+            "symlink_to_file"
+        }
+        6 => {
+            v.args = vec!["ws/nodir".into()];
+            "missing_directory"
+        }
+        7 => {
+            v.args.clear();
+            "no_arguments"
+        }
+        _ => {
+            // directory given through a path with dot components
+            v.args = vec!["ws/../ws/.".into()];
+            "dotted_path"
+        }
+    }
+}
+
+fn fs_point_estimate(v: &Variant) -> usize {
+    let dirs = v.args.iter().filter(|a| *a == "ws").count();
+    2 * v.args.len() + dirs + v.files.len() * (1 + dirs) + 1
+}
+
+fn dynamic_fault(rng: &mut Rng, world: &World, v: &mut Variant) {
+    let at = rng.below(fs_point_estimate(v).max(1));
+    let target = match rng.below(3) {
+        0 => None,
+        1 => Some("ws".to_string()),
+        _ => v.files.get(rng.below(v.files.len().max(1))).map(|f| format!("ws/{}", f.name)),
+    };
+    let other_text = if world.decls.is_empty() { String::new() } else { world.decls[rng.below(world.decls.len())].text.clone() };
+    let action = match rng.below(9) {
+        0 | 1 => FsAction::Vanish,
+        2 => FsAction::FileToDir,
+        3 => FsAction::DirToFile,
+        4 => FsAction::Rewrite(other_text.into_bytes()),
+        5 => FsAction::Rewrite(b"PROGRAM rewritten\n  VAR\n    k : INT;\n  END_VAR\n  k := undefined_after_rewrite;\nEND_PROGRAM\n".to_vec()),
+        6 => FsAction::Truncate(rng.below(40)),
+        7 => FsAction::Append(b"\n?? garbage".to_vec()),
+        _ => FsAction::DanglingSymlink,
+    };
+    v.faults.push(Fault { at, target, action });
+}
+
+pub fn gen_c13(rng: &mut Rng, thorough: bool) -> WorldTrace {
+    let size = rng.range(1, if thorough { 7 } else { 5 });
+    let world = if rng.chance(1, 3) {
+        pool::gen_valid(rng, size)
+    } else {
+        let kind = *rng.pick(pool::FAULT_KINDS);
+        pool::gen_faulty(rng, size, kind)
+    };
+    let order = rng.perm(world.decls.len());
+    let k = rng.range(1, 3.min(world.decls.len().max(1)));
+    let files = partition(rng, &order, k, Enc::Utf8);
+    let base = |role: &str, entry: Entry, args: Vec<String>, rng: &mut Rng| Variant {
+        role: role.to_string(),
+        entry,
+        files: files.clone(),
+        extras: vec![],
+        args,
+        dir_seed: rng.next(),
+        hash_seed: rng.next(),
+        faults: vec![],
+    };
+    let file_args = |rng: &mut Rng| {
+        let mut l: Vec<String> = files.iter().map(|f| format!("ws/{}", f.name)).collect();
+        rng.shuffle(&mut l);
+        l
+    };
+    let mut variants = vec![base("dir", Entry::Check, vec!["ws".into()], rng)];
+    for _ in 0..rng.range(1, 3) {
+        let a = file_args(rng);
+        variants.push(base("files", Entry::Check, a, rng));
+    }
+    // mixtures: the same file twice, a file plus its directory
+    let mut a = file_args(rng);
+    if rng.chance(1, 2) {
+        let dup = a[rng.below(a.len())].clone();
+        let pos = rng.below(a.len() + 1);
+        a.insert(pos, dup);
+    } else {
+        let pos = rng.below(a.len() + 1);
+        a.insert(pos, "ws".into());
+    }
+    variants.push(base("mix", Entry::Check, a, rng));
+    for entry in [Entry::Echo, Entry::Tokenize] {
+        let a = if rng.chance(1, 2) { vec!["ws".to_string()] } else { file_args(rng) };
+        variants.push(base("parts", entry, a, rng));
+    }
+    // fault-injecting part (separate from the fault-free variants above)
+    let nfault = if thorough { 6 } else { 3 };
+    for _ in 0..nfault {
+        let entry = *rng.pick(&[Entry::Check, Entry::Check, Entry::Check, Entry::Echo, Entry::Tokenize]);
+        let a = if rng.chance(1, 2) { vec!["ws".to_string()] } else { file_args(rng) };
+        let mut v = base("fault", entry, a, rng);
+        if rng.chance(1, 2) {
+            let kind = static_fault(rng, &mut v);
+            v.role = format!("fault.static.{kind}");
+        } else {
+            dynamic_fault(rng, &world, &mut v);
+            v.role = "fault.dynamic".into();
+        }
+        variants.push(v);
+    }
+    WorldTrace { prop: "C13".into(), world, variants, mode: String::new() }
+}
+
+fn is_problem_code(c: &str) -> bool {
+    c.len() == 5 && c.starts_with('P') && c[1..].chars().all(|ch| ch.is_ascii_digit())
+}
+
+fn oracle_c13(t: &WorldTrace, obs: &[Obs], stats: &mut Stats) -> Vec<Violation> {
+    let mut out = vec![];
+    let kind = world_kind(&t.world);
+    for (i, (v, o)) in t.variants.iter().zip(obs).enumerate() {
+        let role = v.role.clone();
+        let what = match role.as_str() {
+            r if r.starts_with("fault.static.") => r.trim_start_matches("fault.static.").to_string(),
+            "fault.dynamic" => {
+                let f = v.faults.first();
+                let point = f.and_then(|f| o.fs_points.get(f.at)).map(|p| p.0.clone()).unwrap_or_else(|| "none".into());
+                format!("dynamic:{}@{}", f.map(|f| crate::seam::action_kind(&f.action)).unwrap_or("none"), point)
+            }
+            _ => "faultfree".to_string(),
+        };
+        if let Outcome::Panic(p) = &o.outcome {
+            out.push(viol("C13", format!("C13/panic/{:?}/{}", v.entry, crate::seam::panic_signature(p)), format!("variant {i} ({role}, args {:?}) panicked: {p}", v.args)));
+            continue;
+        }
+        let ndiag = o.diags.len() as u32;
+        let emitfail = o.probe("emit.failed");
+        if v.entry == Entry::Check {
+            stats.count("c13.check_agreement_evaluations");
+            let okp = o.probe("check.ok");
+            let ok = matches!(o.outcome, Outcome::Ok);
+            if ok && (okp != 1 || ndiag != 0) {
+                out.push(viol("C13", format!("C13/ok-but-diagnostics/{what}"), format!("variant {i} ({role}, args {:?}): result Ok, OK printed {okp} time(s), but {ndiag} diagnostic(s) were emitted: {:?}", v.args, o.codes())));
+            }
+            if !ok {
+                if okp != 0 {
+                    out.push(viol("C13", format!("C13/err-but-ok-printed/{what}"), format!("variant {i} ({role}, args {:?}): non-zero result but OK was printed", v.args)));
+                }
+                if ndiag.saturating_sub(emitfail) < 1 {
+                    out.push(viol(
+                        "C13",
+                        format!("C13/err-without-coded-diagnostic/{what}"),
+                        format!(
+                            "variant {i} ({role}, args {:?}, world {kind}): non-zero result ({:?}) but no coded diagnostic reached the terminal: {ndiag} diagnostic(s) handed to the renderer ({:?}), {emitfail} of them refused by it",
+                            v.args,
+                            o.outcome,
+                            o.diags.iter().map(|d| (d.code.clone(), d.primary.file.clone(), d.with_project)).collect::<Vec<_>>()
+                        ),
+                    ));
+                }
+            }
+        }
+        for d in &o.diags {
+            if !is_problem_code(&d.code) {
+                out.push(viol("C13", "C13/diagnostic-without-code".into(), format!("variant {i}: diagnostic with code {:?}", d.code)));
+            }
+        }
+    }
+    // fault-free equivalences
+    let find = |role: &str| t.variants.iter().zip(obs).filter(|(v, _)| v.role == role).collect::<Vec<_>>();
+    if let Some((_, dir)) = find("dir").first() {
+        for (v, o) in find("files").into_iter().chain(find("mix")) {
+            stats.count("c13.dir_vs_files_comparisons");
+            if outcome_word(&dir.outcome) != outcome_word(&o.outcome) {
+                out.push(viol(
+                    "C13",
+                    format!("C13/dir-differs-from-files/{}/{kind}", v.role),
+                    format!("check of the directory gives {} {:?} but check of args {:?} gives {} {:?}", outcome_word(&dir.outcome), dir.codes(), v.args, outcome_word(&o.outcome), o.codes()),
+                ));
+            } else if dir.codes() != o.codes() {
+                out.push(viol(
+                    "C13",
+                    format!("C13/dir-codes-differ-from-files/{}/{kind}", v.role),
+                    format!("check of the directory reports {:?} but check of args {:?} reports {:?}", dir.codes(), v.args, o.codes()),
+                ));
+            }
+        }
+    }
+    for (v, o) in find("parts") {
+        if matches!(o.outcome, Outcome::Panic(_)) {
+            continue;
+        }
+        // composition oracle: the command agrees with its parts
+        let mut all_ok = true;
+        for f in &v.files {
+            let text = file_text(&t.world, f);
+            let id = ironplc_dsl::core::FileId::from_string(&f.name);
+            let opts = ironplc_parser::options::ParseOptions::default();
+            let file_ok = match v.entry {
+                Entry::Echo => ironplc_parser::parse_program(&text, &id, &opts).is_ok(),
+                _ => ironplc_parser::tokenize_program(&text, &id, &opts).1.is_empty(),
+            };
+            all_ok &= file_ok;
+        }
+        stats.count("c13.parts_comparisons");
+        let ok = matches!(o.outcome, Outcome::Ok);
+        if ok != all_ok {
+            out.push(viol(
+                "C13",
+                format!("C13/{:?}-disagrees-with-parts/{kind}", v.entry),
+                format!("{:?} of args {:?} returned {:?} although {} of its files {}", v.entry, v.args, o.outcome, if all_ok { "every one" } else { "not every one" }, if v.entry == Entry::Echo { "parses" } else { "tokenizes" }),
+            ));
+        }
+    }
+    out
+}
+
+// ---------------------------------------------------------------------------------------------
+// C14: encodings and corrupted storage
+
+const W1252_EXTRAS: &[&str] = &["Zähler", "Größe µ °C", "naïve façade", "£ € ¥", "Ÿ œ Š ž", "¿qué?", "×÷±"];
+const UNICODE_EXTRAS: &[&str] = &["→ 日本語", "Ω ≈ ∑", "😀 emoji", "Привет", "ﬁ ligature", "\u{2028}sep"];
+
+/// Adds non-ASCII characters in comments and string literals.
+fn decorate(rng: &mut Rng, world: &mut World, repertoire_1252: bool) {
+    for d in world.decls.iter_mut() {
+        let extra = if repertoire_1252 || rng.chance(1, 2) { *rng.pick(W1252_EXTRAS) } else { *rng.pick(UNICODE_EXTRAS) };
+        match rng.below(4) {
+            0 => d.text = format!("(* {extra} *)\n{}", d.text),
+            1 => {
+                // a string variable inside the first VAR block of a POU
+                if let Some(p) = d.text.find("  VAR\n") {
+                    d.text.insert_str(p + 6, &format!("    txt : STRING := '{}';\n", extra.replace('\'', "")));
+                }
+            }
+            2 => {
+                if let Some(p) = d.text.find('\n') {
+                    d.text.insert_str(p + 1, &format!("(* {extra} *) "));
+                }
+            }
+            _ => {}
+        }
+    }
+}
+
+fn draw_enc(rng: &mut Rng, allow_1252: bool) -> Enc {
+    loop {
+        let e = *rng.pick(&crate::world::ALL_ENCODINGS);
+        if e != Enc::Win1252 || allow_1252 {
+            return e;
+        }
+    }
+}
+
+fn assign_encodings(rng: &mut Rng, world: &World, files: &mut [FileSpec], allow_1252: bool) {
+    for f in files.iter_mut() {
+        f.enc = draw_enc(rng, allow_1252);
+        if f.enc == Enc::Win1252 {
+            // the inherently ambiguous case: the Windows-1252 bytes happen to be valid UTF-8 too
+            let text = file_text(world, f);
+            let bytes = crate::world::encode(&text, Enc::Win1252);
+            if !text.is_ascii() && std::str::from_utf8(&bytes).is_ok() {
+                f.enc = Enc::Utf8;
+            }
+        }
+    }
+}
+
+pub const SWEEP_RUNS: u64 = 1024;
+
+fn sweep_bytes(position: usize, byte: u8) -> Vec<u8> {
+    let template: [&[u8]; 5] = [
+        b"FUNCTION_BLOCK Sweep\n  VAR\n    s : STRING := 'a",
+        b"b';\n    cnt : INT;\n  END_VAR\n  (* c",
+        b"d *)\n  cnt ",
+        b":= cn",
+        b"t + 1;\nEND_FUNCTION_BLOCK\n",
+    ];
+    let mut out = vec![];
+    for (i, part) in template.iter().enumerate() {
+        out.extend_from_slice(part);
+        if i == position {
+            out.push(byte);
+        }
+    }
+    out
+}
+
+pub fn gen_c14(rng: &mut Rng, thorough: bool, run_index: u64) -> WorldTrace {
+    if run_index < SWEEP_RUNS {
+        // exhaustive part of the quantifier: every byte value at four positions
+        let position = (run_index / 256) as usize;
+        let byte = (run_index % 256) as u8;
+        let world = World { decls: vec![], fault: None };
+        let file = FileSpec { name: "sweep.st".into(), decls: vec![], enc: Enc::Utf8, raw: Some(sweep_bytes(position, byte)) };
+        let mut variants = vec![];
+        for entry in [Entry::Check, Entry::Tokenize, Entry::ApiPush, Entry::Echo] {
+            variants.push(Variant { role: "corrupt".into(), entry, files: vec![file.clone()], extras: vec![], args: vec!["ws/sweep.st".into()], dir_seed: 1, hash_seed: rng.next(), faults: vec![] });
+        }
+        return WorldTrace { prop: "C14".into(), world, variants, mode: format!("sweep:{}:{byte}", ["string", "comment", "between_tokens", "identifier"][position]) };
+    }
+    let size = rng.range(1, if thorough { 6 } else { 4 });
+    let mut world = if rng.chance(1, 2) {
+        pool::gen_valid(rng, size)
+    } else {
+        let kind = *rng.pick(pool::FAULT_KINDS);
+        pool::gen_faulty(rng, size, kind)
+    };
+    let allow_1252 = rng.chance(1, 2);
+    decorate(rng, &mut world, allow_1252);
+    let order = rng.perm(world.decls.len());
+    let k = rng.range(1, 3.min(world.decls.len().max(1)));
+    let files = partition(rng, &order, k, Enc::Utf8);
+    let mut variants = vec![];
+    if rng.chance(3, 5) {
+        // twin worlds: same texts, independently drawn stored encodings
+        let args = present(rng, &files);
+        let dir_seed = rng.next();
+        let hash_seed = rng.next();
+        let entry = *rng.pick(&[Entry::Check, Entry::Check, Entry::ApiPush, Entry::Tokenize]);
+        for role in ["twin", "twin", "twin"] {
+            let mut f = files.clone();
+            assign_encodings(rng, &world, &mut f, allow_1252);
+            variants.push(Variant { role: role.into(), entry, files: f, extras: vec![], args: args.clone(), dir_seed, hash_seed, faults: vec![] });
+        }
+        // reference twin: plain UTF-8
+        variants.insert(0, Variant { role: "reference".into(), entry, files: files.clone(), extras: vec![], args, dir_seed, hash_seed, faults: vec![] });
+        WorldTrace { prop: "C14".into(), world, variants, mode: "twins".into() }
+    } else {
+        // corrupted storage
+        for _ in 0..3 {
+            let mut f = files.clone();
+            assign_encodings(rng, &world, &mut f, true);
+            let args = present(rng, &f);
+            let entry = *rng.pick(&[Entry::Check, Entry::Check, Entry::ApiPush, Entry::Tokenize, Entry::Echo]);
+            let mut v = Variant { role: "corrupt".into(), entry, files: f, extras: vec![], args, dir_seed: rng.next(), hash_seed: rng.next(), faults: vec![] };
+            let fi = rng.below(v.files.len());
+            let mut bytes = file_bytes(&world, &v.files[fi]);
+            match rng.below(7) {
+                0 if !bytes.is_empty() => {
+                    let i = rng.below(bytes.len());
+                    bytes[i] ^= 1 << rng.below(8);
+                    v.role = "corrupt.bitflip".into();
+                }
+                1 => {
+                    let n = rng.below(bytes.len() + 1);
+                    bytes.truncate(n);
+                    v.role = "corrupt.truncate".into();
+                }
+                2 => {
+                    // cut inside the BOM or the first multi-byte sequence
+                    let n = rng.below(4.min(bytes.len() + 1));
+                    bytes.truncate(n);
+                    v.role = "corrupt.truncate_bom".into();
+                }
+                3 => {
+                    let mut g: Vec<u8> = (0..rng.range(1, 8)).map(|_| rng.below(256) as u8).collect();
+                    g.extend_from_slice(&bytes);
+                    bytes = g;
+                    v.role = "corrupt.garbage_prefix".into();
+                }
+                4 => {
+                    bytes.extend((0..rng.range(1, 8)).map(|_| rng.below(256) as u8));
+                    v.role = "corrupt.garbage_suffix".into();
+                }
+                5 => {
+                    bytes = (0..rng.range(0, 200)).map(|_| rng.below(256) as u8).collect();
+                    v.role = "corrupt.random_binary".into();
+                }
+                _ => {
+                    // concurrent rewrite between enumeration and read: the storage actor replaces the
+                    // stored bytes right before the read of this file
+                    let other = crate::world::encode(&world.decls[rng.below(world.decls.len())].text, draw_enc(rng, true));
+                    let at = rng.below(fs_point_estimate(&v));
+                    v.faults.push(Fault { at, target: Some(format!("ws/{}", v.files[fi].name)), action: if rng.chance(1, 2) { FsAction::Rewrite(other) } else { FsAction::Truncate(rng.below(bytes.len() + 1)) } });
+                    v.role = "corrupt.concurrent_rewrite".into();
+                }
+            }
+            if v.faults.is_empty() {
+                v.files[fi].raw = Some(bytes);
+            }
+            variants.push(v);
+        }
+        WorldTrace { prop: "C14".into(), world, variants, mode: "corrupt".into() }
+    }
+}
+
+fn line_col(text: &str, offset: usize) -> Option<(usize, usize)> {
+    if offset > text.len() || !text.is_char_boundary(offset) {
+        return None;
+    }
+    let before = &text[..offset];
+    let line = before.matches('\n').count();
+    let col = before.rsplit('\n').next().map(|l| l.chars().count()).unwrap_or(0);
+    Some((line, col))
+}
+
+fn oracle_c14(t: &WorldTrace, obs: &[Obs], stats: &mut Stats) -> Vec<Violation> {
+    let mut out = vec![];
+    let kind = world_kind(&t.world);
+    // structural oracle (every variant): a Result, labels inside the decoded text on char boundaries
+    for (i, (v, o)) in t.variants.iter().zip(obs).enumerate() {
+        let tag = if t.mode.starts_with("sweep:") { format!("sweep.{}", t.mode.split(':').nth(1).unwrap_or("")) } else { v.role.clone() };
+        if let Outcome::Panic(p) = &o.outcome {
+            out.push(viol("C14", format!("C14/crash/{tag}/{:?}/{}", v.entry, crate::seam::panic_signature(p)), format!("variant {i} ({}, {:?}, mode {}) crashed: {p}", v.role, v.entry, t.mode)));
+            continue;
+        }
+        stats.count(&format!("c14.structural.{}", v.role));
+        let mut all_labels_fine = true;
+        for d in &o.diags {
+            for l in std::iter::once(&d.primary).chain(d.secondary.iter()) {
+                if let Some(len) = l.text_len {
+                    let inside = l.start <= l.end && l.end <= len;
+                    let boundary = l.on_char_boundary == Some(true);
+                    if !inside || !boundary {
+                        all_labels_fine = false;
+                        out.push(viol(
+                            "C14",
+                            format!("C14/label-outside-decoded-text/{tag}/{}", d.code),
+                            format!("variant {i} ({}, {:?}): diagnostic {} has label {}..{} in {} whose decoded text has {len} bytes (on char boundary: {:?})", v.role, v.entry, d.code, l.start, l.end, l.file, l.on_char_boundary),
+                        ));
+                    }
+                } else if !l.file.is_empty() && d.with_project {
+                    // a label naming a file the project does not hold cannot be rendered
+                    all_labels_fine = false;
+                }
+            }
+        }
+        if all_labels_fine && o.probe("emit.failed") > 0 && o.diags.iter().all(|d| d.primary.text_len.is_some()) {
+            out.push(viol("C14", format!("C14/renderer-refused-diagnostic/{tag}"), format!("variant {i}: every label lies inside its file's decoded text, yet the renderer refused {} diagnostic(s): {:?}", o.probe("emit.failed"), o.codes())));
+        }
+    }
+    // twin oracle
+    if t.mode == "twins" {
+        let reference = &obs[0];
+        let rv = &t.variants[0];
+        let describe = |v: &Variant| v.files.iter().map(|f| format!("{}:{:?}", f.name, f.enc)).collect::<Vec<_>>().join(",");
+        let positions = |v: &Variant, o: &Obs| -> Option<Vec<(String, String, Option<(usize, usize)>)>> {
+            let mut p = vec![];
+            for d in &o.diags {
+                let name = d.primary.file.rsplit('/').next().unwrap_or("").to_string();
+                let pos = match v.files.iter().find(|f| f.name == name) {
+                    Some(f) => {
+                        let text = file_text(&t.world, f);
+                        // offsets are comparable only if the program saw a text of the same length
+                        if d.primary.text_len.is_some() && d.primary.text_len != Some(text.len()) {
+                            return None;
+                        }
+                        line_col(&text, d.primary.start)
+                    }
+                    None => None,
+                };
+                p.push((d.code.clone(), name, pos));
+            }
+            p.sort();
+            Some(p)
+        };
+        for (i, (v, o)) in t.variants.iter().zip(obs).enumerate().skip(1) {
+            stats.count("c14.twin_comparisons");
+            for f in &v.files {
+                stats.count(&format!("c14.encoding.{:?}", f.enc));
+            }
+            let encs: Vec<String> = {
+                let mut e: Vec<String> = v.files.iter().map(|f| format!("{:?}", f.enc)).collect();
+                e.sort();
+                e.dedup();
+                e
+            };
+            if outcome_word(&o.outcome) != outcome_word(&reference.outcome) {
+                out.push(viol(
+                    "C14",
+                    format!("C14/twin-verdict-differs/{}", encs.join("+")),
+                    format!("the same texts ({kind}) stored as [{}] give {} {:?} but stored as [{}] give {} {:?}", describe(rv), outcome_word(&reference.outcome), reference.codes(), describe(v), outcome_word(&o.outcome), o.codes()),
+                ));
+                continue;
+            }
+            if o.codes() != reference.codes() {
+                out.push(viol("C14", format!("C14/twin-codes-differ/{}", encs.join("+")), format!("stored as [{}]: {:?}; stored as [{}]: {:?}", describe(rv), reference.codes(), describe(v), o.codes())));
+                continue;
+            }
+            match (positions(rv, reference), positions(v, o)) {
+                (Some(a), Some(b)) => {
+                    stats.count("c14.twin_position_comparisons");
+                    if a != b {
+                        out.push(viol("C14", format!("C14/twin-positions-differ/{}", encs.join("+")), format!("variant {i}: stored as [{}]: {a:?}; stored as [{}]: {b:?}", describe(rv), describe(v))));
+                    }
+                }
+                _ => stats.count("c14.twin_decoded_length_differs"),
+            }
+        }
+    }
+    out
+}
+
+// ---------------------------------------------------------------------------------------------
+// C03: no error is masked
+
+pub fn gen_c03(rng: &mut Rng, thorough: bool) -> WorldTrace {
+    // a faulty module (the `involved` declarations) plus up to 8 accompanying declarations
+    let size = rng.range(1, if thorough { 9 } else { 6 });
+    let kinds: Vec<&str> = pool::FAULT_KINDS.iter().copied().filter(|k| pool::is_standalone(k) && *k != "dup_one_faulty").collect();
+    let kind = *rng.pick(&kinds);
+    let mut world = pool::gen_faulty(rng, size, kind);
+    let involved = world.fault.as_ref().unwrap().involved.clone();
+    let clash_world = pool::is_name_clash(kind);
+    // optionally an accompanying declaration that reuses the faulty declaration's name
+    let mut name_reuse = false;
+    if !clash_world && rng.chance(1, 3) {
+        let name = world.decls[involved[0]].name.clone();
+        let reuse = match rng.below(3) {
+            0 => format!("FUNCTION_BLOCK {name}\n  VAR\n    fine : INT;\n  END_VAR\n  fine := 1;\nEND_FUNCTION_BLOCK\n"),
+            1 => format!("TYPE\n  {name} : (ReuseA, ReuseB) := ReuseA;\nEND_TYPE\n"),
+            _ => format!("PROGRAM {}\n  VAR\n    fine : INT;\n  END_VAR\n  fine := 1;\nEND_PROGRAM\n", name.to_uppercase()),
+        };
+        world.decls.push(pool::Decl { text: reuse, kind: "reuse".into(), name });
+        name_reuse = true;
+    }
+    let company: Vec<usize> = (0..world.decls.len()).filter(|d| !involved.contains(d)).collect();
+    let faulty_file = |name: &str| FileSpec { name: name.to_string(), decls: involved.clone(), enc: Enc::Utf8, raw: None };
+    let mk = |role: &str, entry: Entry, files: Vec<FileSpec>, args: Vec<String>, rng: &mut Rng| Variant { role: role.into(), entry, files, extras: vec![], args, dir_seed: rng.next(), hash_seed: rng.next(), faults: vec![] };
+    let mut variants = vec![mk("alone", Entry::Check, vec![faulty_file("faulty.st")], vec!["ws/faulty.st".into()], rng)];
+    // reference for "the company is valid": the accompanying declarations alone
+    let mut company_only = mk("company", Entry::Check, vec![FileSpec { name: "company.st".into(), decls: company.clone(), enc: Enc::Utf8, raw: None }], vec!["ws/company.st".into()], rng);
+    company_only.role = "nofault".into();
+    variants.push(company_only);
+    let nvar = if thorough { 12 } else { 6 };
+    for _ in 0..nvar {
+        let entry = if rng.chance(1, 4) { Entry::ApiText } else { Entry::Check };
+        let mut files;
+        if rng.chance(1, 2) {
+            // faulty file kept as a file of its own among 0-4 accompanying files
+            let k = rng.range(0, 4.min(company.len()));
+            let mut shuffled = company.clone();
+            rng.shuffle(&mut shuffled);
+            files = if k == 0 { vec![] } else { partition(rng, &shuffled, k, Enc::Utf8) };
+            files.retain(|f| f.name != "faulty.st");
+            if k == 0 && !company.is_empty() {
+                // company left out entirely: same as alone
+            }
+            let pos = rng.below(files.len() + 1);
+            files.insert(pos, faulty_file("faulty.st"));
+            // all accompanying declarations must be somewhere, otherwise references dangle
+            let placed: Vec<usize> = files.iter().flat_map(|f| f.decls.clone()).collect();
+            let missing: Vec<usize> = company.iter().copied().filter(|d| !placed.contains(d)).collect();
+            if !missing.is_empty() {
+                files.push(FileSpec { name: "rest.st".into(), decls: missing, enc: Enc::Utf8, raw: None });
+            }
+        } else {
+            // faulty declarations placed among the others inside shared files
+            let order = rng.perm(world.decls.len());
+            let k = rng.range(1, 3.min(world.decls.len()));
+            files = partition(rng, &order, k, Enc::Utf8);
+        }
+        let args = present(rng, &files);
+        variants.push(mk("company", entry, files, args, rng));
+    }
+    WorldTrace { prop: "C03".into(), world, variants, mode: if name_reuse { "name_reuse".into() } else if clash_world { "clash".into() } else { "plain".into() } }
+}
+
+const CURABLE: &[&str] = &["P0012", "P0021", "P0022", "P0030"];
+
+fn oracle_c03(t: &WorldTrace, obs: &[Obs], stats: &mut Stats) -> Vec<Violation> {
+    let mut out = vec![];
+    let kind = world_kind(&t.world);
+    let alone = &obs[0];
+    let clash = t.mode == "clash";
+    if matches!(alone.outcome, Outcome::Panic(_)) {
+        return out; // crashes are C13/C14 territory
+    }
+    if !clash && !alone.failed() {
+        // not a stand-alone fault for this analyzer: C03 says nothing
+        stats.count("c03.discarded_alone_run_ok");
+        return out;
+    }
+    stats.count("c03.worlds_with_failing_reference");
+    let company_valid = t.variants.iter().zip(obs).find(|(v, _)| v.role == "nofault").map(|(_, o)| !o.failed()).unwrap_or(false);
+    let alone_mapped: Vec<(String, Option<(usize, usize)>)> = mapped(&t.world, &t.variants[0], alone).into_iter().filter(|(c, _)| !CURABLE.contains(&c.as_str())).collect();
+    let involved = t.world.fault.as_ref().map(|f| f.involved.clone()).unwrap_or_default();
+    for (i, (v, o)) in t.variants.iter().zip(obs).enumerate() {
+        if v.role != "company" && !(clash && v.role == "alone") {
+            continue;
+        }
+        if matches!(o.outcome, Outcome::Panic(_)) {
+            continue;
+        }
+        stats.count("c03.company_variants");
+        let layout = v.files.iter().map(|f| (f.name.clone(), f.decls.clone())).collect::<Vec<_>>();
+        if !o.failed() {
+            out.push(viol(
+                "C03",
+                format!("C03/masked/{kind}/{}", t.mode),
+                format!(
+                    "{} but in company (variant {i}, {:?}, files {layout:?}, args {:?}, hash_seed {}) the set is accepted",
+                    if clash { "two declarations share a name".to_string() } else { format!("the faulty file alone fails with {:?}", alone.codes()) },
+                    v.entry,
+                    v.args,
+                    v.hash_seed
+                ),
+            ));
+            continue;
+        }
+        // valid company without name clash: every non-curable code of the alone-run is reported again at the same place
+        if company_valid && t.mode == "plain" && !clash {
+            let m = mapped(&t.world, v, o);
+            for (code, loc) in &alone_mapped {
+                stats.count("c03.code_relocation_checks");
+                let loc_reliable = matches!(loc, Some((d, _)) if involved.contains(d));
+                let found = m.iter().any(|(c, l)| {
+                    c == code
+                        && (!loc_reliable
+                            || match (l, loc) {
+                                (Some((d, _)), _) if involved.len() > 1 => involved.contains(d),
+                                (Some(a), Some(b)) => a == b,
+                                _ => false,
+                            })
+                });
+                if !found {
+                    out.push(viol(
+                        "C03",
+                        format!("C03/error-hidden-by-company/{kind}/{code}"),
+                        format!("alone the faulty file reports {code} at {loc:?}; in valid company (variant {i}, files {layout:?}, args {:?}) the set reports only {m:?}", v.args),
+                    ));
+                    break;
+                }
+            }
+        }
+    }
+    out
+}
+
+// ---------------------------------------------------------------------------------------------
 // Execution
 
 pub fn execute(t: &WorldTrace, stats: &mut Stats) -> RunReport {
@@ -248,21 +917,34 @@ pub fn execute(t: &WorldTrace, stats: &mut Stats) -> RunReport {
             }
         }
         stats.count(&format!("entry.{:?}", v.entry));
+        if v.role.starts_with("fault.static.") || v.role.starts_with("corrupt") {
+            stats.count(&format!("fault_fired.{}", v.role));
+        }
         stats.count(&format!("outcome.{}", outcome_word(&o.outcome)));
         obs.push(o);
     }
     stats.count(&format!("world_kind.{}", world_kind(&t.world)));
     let violations = match t.prop.as_str() {
         "C06" => oracle_c06(t, &obs, stats),
+        "C13" => oracle_c13(t, &obs, stats),
+        "C14" => oracle_c14(t, &obs, stats),
+        "C03" => oracle_c03(t, &obs, stats),
         other => panic!("no world oracle for {other}"),
     };
-    let nontrivial = t.variants.len() >= 2 && !t.world.decls.is_empty();
+    // non-trivial: the oracle had something to compare (several executions of a non-empty world, or
+    // the byte sweep's raw file; for C03 the reference run must have failed or the world is a clash)
+    let nontrivial = t.variants.len() >= 2
+        && (!t.world.decls.is_empty() || t.variants.iter().any(|v| v.files.iter().any(|f| f.raw.is_some())))
+        && (t.prop != "C03" || t.mode == "clash" || obs.first().map(|o| o.failed()).unwrap_or(false));
     RunReport { violations, nontrivial }
 }
 
-pub fn generate(prop: &str, rng: &mut Rng, thorough: bool) -> WorldTrace {
+pub fn generate(prop: &str, rng: &mut Rng, thorough: bool, run_index: u64) -> WorldTrace {
     match prop {
         "C06" => gen_c06(rng, thorough),
+        "C13" => gen_c13(rng, thorough),
+        "C14" => gen_c14(rng, thorough, run_index),
+        "C03" => gen_c03(rng, thorough),
         other => panic!("no world generator for {other}"),
     }
 }
